@@ -16,15 +16,15 @@ ops (HEX `-` = empty):
   | f32 i o | f64 i o | flags i
 A panic ends the sequence (`panic`).
 -/
-import XehModel.Model.Bitstr
+import XehModel.Model.BitstrPool
 import XehModel.Driver.Codec
 
 namespace Xeh.Driver.C04
 open Xeh Xeh.Bits Xeh.Bitstr
 
-structure St where
-  heap : Heap
-  pool : Array (Option Handle)
+/-- the state is the pool machine of Model/BitstrPool.lean: every operation that changes it goes through `Pool.step`
+    (the machine `Props/C04.lean`'s history theorems are about), the constructors outside `PoolOp` push their result -/
+abbrev St := Pool
 
 def packHex (bits : List Bool) : String :=
   let rec go (l : List Bool) (fuel : Nat) (acc : List Char) : List Char :=
@@ -38,8 +38,8 @@ def packHex (bits : List Bool) : String :=
   String.ofList (go bits (bits.length + 1) [])
 
 def showState (st : St) : String :=
-  let items := (List.range st.pool.size).filterMap fun k =>
-    match st.pool[k]? with
+  let items := (List.range st.slots.length).filterMap fun k =>
+    match st.slots[k]? with
     | some (some s) => some s!"{k}:{s.start}:{s.end_ - s.start}:{packHex (bits st.heap s)}"
     | _ => none
   ",".intercalate items
@@ -67,12 +67,20 @@ def hexBytes (bs : List Nat) : String :=
 
 def get (st : St) (tok : String) : Option (Nat × Handle) := do
   let i ← tok.toNat?
-  match st.pool[i]? with
+  match st.slots[i]? with
   | some (some s) => some (i, s)
   | _ => none
 
 def push (st : St) (h : Heap) (s : Handle) : St × String :=
-  ({ heap := h, pool := st.pool.push (some s) }, s!"+{st.pool.size}")
+  (Pool.push st h s, s!"+{st.slots.length}")
+
+/-- run a `PoolOp`; the answer text says what became of it: `+k` for every slot that was added, else `dflt` -/
+def viaPool (st : St) (op : PoolOp) (dflt : String) : Option (St × String) :=
+  match st.step op with
+  | none => some (st, "panic")
+  | some st' =>
+    let added := (List.range (st'.slots.length - st.slots.length)).map fun k => s!"+{st.slots.length + k}"
+    some (st', if added.isEmpty then dflt else String.join added)
 
 def optBytes : Outcome (Option (List Nat)) → Option String
   | .ok none => some "none"
@@ -85,15 +93,11 @@ def step (st : St) (op : List String) : Option (St × String) :=
   match op with
   | ["new", hx] => do
     let bs ← parseHexBytes hx
-    let (h', s) := fromVec h bs
-    some (push st h' s)
+    viaPool st (.newVec bs) "ok"
   | ["static", hx] => do
     let bs ← parseHexBytes hx
-    let (h', s) := fromStatic h bs
-    some (push st h' s)
-  | ["empty"] =>
-    let (h', s) := Bitstr.new h
-    some (push st h' s)
+    viaPool st (.newStatic bs) "ok"
+  | ["empty"] => viaPool st .empty "ok"
   | ["hexstr", t] => do
     let cs ← parseText t
     match fromHexStr h cs with
@@ -117,61 +121,40 @@ def step (st : St) (op : List String) : Option (St × String) :=
     let (h', s) := fromF64 h v o
     some (push st h' s)
   | ["clone", i] => do
-    let (_, s) ← get st i
-    let (h', s') := clone h s
-    some (push st h' s')
+    let (k, _) ← get st i
+    viaPool st (.clone k) "ok"
   | ["drop", i] => do
-    let (k, s) ← get st i
-    some ({ heap := drop h s, pool := st.pool.set! k none }, "ok")
+    let (k, _) ← get st i
+    viaPool st (.drop k) "ok"
   | ["read", i, n] => do
-    let (k, s) ← get st i; let n ← n.toNat?
-    match read h s n with
-    | (h', s', some r) => some (push { heap := h', pool := st.pool.set! k (some s') } h' r)
-    | (_, _, none) => some (st, "none")
+    let (k, _) ← get st i; let n ← n.toNat?
+    viaPool st (.read k n) "none"
   | ["peek", i, n] => do
-    let (_, s) ← get st i; let n ← n.toNat?
-    match peek h s n with
-    | (h', some r) => some (push st h' r)
-    | (_, none) => some (st, "none")
+    let (k, _) ← get st i; let n ← n.toNat?
+    viaPool st (.peek k n) "none"
   | ["seek", i, n] => do
-    let (_, s) ← get st i; let n ← n.toNat?
-    match seek h s n with
-    | (h', some r) => some (push st h' r)
-    | (_, none) => some (st, "none")
+    let (k, _) ← get st i; let n ← n.toNat?
+    viaPool st (.seek k n) "none"
   | ["substr", i, a, b] => do
-    let (_, s) ← get st i; let a ← a.toNat?; let b ← b.toNat?
-    match substr h s a b with
-    | (h', some r) => some (push st h' r)
-    | (_, none) => some (st, "none")
+    let (k, _) ← get st i; let a ← a.toNat?; let b ← b.toNat?
+    viaPool st (.substr k a b) "none"
   | ["split", i, n] => do
-    let (_, s) ← get st i; let n ← n.toNat?
-    match splitAt h s n with
-    | (h', some (l, r)) =>
-      let (st1, a) := push st h' l
-      let (st2, b) := push st1 h' r
-      some (st2, a ++ b)
-    | (_, none) => some (st, "none")
+    let (k, _) ← get st i; let n ← n.toNat?
+    viaPool st (.split k n) "none"
   | ["detach", i] => do
-    let (k, s) ← get st i
-    match detach h s with
-    | .ok (h', s') => some ({ heap := h', pool := st.pool.set! k (some s') }, "ok")
-    | _ => some (st, "panic")
+    let (k, _) ← get st i
+    viaPool st (.detach k) "ok"
   | ["invert", i] => do
-    let (k, s) ← get st i
-    match invert h s with
-    | .ok (h', s') => some ({ heap := h', pool := st.pool.set! k (some s') }, "ok")
-    | _ => some (st, "panic")
+    let (k, _) ← get st i
+    viaPool st (.invert k) "ok"
   | ["append", i, j] => do
-    let (k, s) ← get st i; let (_, t) ← get st j
-    match append h s t with
-    | .ok (h', s') => some ({ heap := h', pool := st.pool.set! k (some s') }, "ok")
-    | _ => some (st, "panic")
+    let (k, _) ← get st i; let (m, _) ← get st j
+    viaPool st (.append k m) "ok"
   | ["insert", i, n, j] => do
-    let (k, s) ← get st i; let n ← n.toNat?; let (_, t) ← get st j
-    match insert h s n t with
-    | .ok (h', some s') => some ({ heap := h', pool := st.pool.set! k (some s') }, "some")
-    | .ok (h', none) => some ({ heap := h', pool := st.pool.set! k none }, "none")
-    | _ => some (st, "panic")
+    let (k, _) ← get st i; let n ← n.toNat?; let (m, _) ← get st j
+    match st.step (.insert k n m) with
+    | none => some (st, "panic")
+    | some st' => some (st', match st'.slots[k]? with | some (some _) => "some" | _ => "none")
   | ["eq", i, j] => do
     let (_, s) ← get st i; let (_, t) ← get st j
     match (h.view s).eqWith (h.view t) with
@@ -247,7 +230,7 @@ def run (ops : List (List String)) : String :=
       | some (st', res) =>
         if res == "panic" then ("panic" :: acc).reverse
         else go r st' (s!"{res}|{showState st'}" :: acc)
-  " ; ".intercalate (go ops { heap := Heap.empty, pool := #[] } [])
+  " ; ".intercalate (go ops {} [])
 
 def handle (args : List String) : String := run (splitOps args)
 
